@@ -8,7 +8,7 @@ copy=/tmp/evalrepo-$lane; scratch=/tmp/evalscratch-$lane
 rm -rf $copy; mkdir -p $copy $scratch
 rsync -a --exclude target --exclude .git /repo/ $copy/
 if [[ "$name" == unfix:* ]]; then
-  git -C /repo show "${name#unfix:}" -- src | (cd $copy && patch -R -p1 -s) || { echo "$name: cannot un-apply"; exit 2; }
+  (cd $copy && patch -p1 -s < /verif/mutants/unfix-${name#unfix:}.diff) || { echo "$name: cannot un-apply"; exit 2; }
   meta=""
 else
   (cd $copy && patch -p1 -s < /verif/seeded/$name/patch.diff) || { echo "$name: patch does not apply"; exit 2; }
